@@ -155,44 +155,57 @@ Theorem encode_spec_roundtrip dt nc g a buf :
 Proof.
   intros Hwf E c z y x (Hc & Hz & Hy & Hx).
   destruct (cseg_encode_file_enc dt nc g a buf Hwf E) as (_ & Hbx & Hby & Hbz & W & chans & -> & Hf).
-  unfold file_enc in Hf. cbv zeta in Hf. destruct Hf as (EW & Hlen & HW & Hch).
-  destruct (Hch c Hc) as (Hl & Hblk).
+  destruct Hf as (EW & Hlen & HW & Hch).
+  destruct (Hch c Hc) as (vl & Hce). unfold chan_enc in Hce. cbv zeta in Hce.
+  destruct Hce as (_ & Hl & Hvl & Hblk & Hpad). clear Hch E.
+  unfold spec_value.
+  destruct (N.eqb_spec (g_bx g) 0); [contradiction|].
+  destruct (N.eqb_spec (g_by g) 0); [contradiction|].
+  destruct (N.eqb_spec (g_bz g) 0); [contradiction|]. cbn [orb].
+  rewrite !ceil_quot_cdiv by assumption.
+  change (cdiv (a_x a) (g_bx g)) with (grid_x a g). change (cdiv (a_y a) (g_by g)) with (grid_y a g).
+  assert (Hxb : x / g_bx g < grid_x a g) by (apply div_lt_cdiv; [lia|exact Hx]).
+  assert (Hyb : y / g_by g < grid_y a g) by (apply div_lt_cdiv; [lia|exact Hy]).
+  assert (Hzb : z / g_bz g < grid_z a g) by (apply div_lt_cdiv; [lia|exact Hz]).
+  destruct (voxel_geometry z _ Hbz) as [Gz Gz'].
+  destruct (voxel_geometry y _ Hby) as [Gy Gy'].
+  destruct (voxel_geometry x _ Hbx) as [Gx Gx'].
   set (gx := grid_x a g) in *. set (gy := grid_y a g) in *. set (gz := grid_z a g) in *.
+  assert (Epad : forall pad,
+            (lenN (block_padded a g c (z / g_bz g) (y / g_by g) (x / g_bx g) pad)
+             = g_bz g * g_by g * g_bx g) /\
+            (nthN (block_padded a g c (z / g_bz g) (y / g_by g) (x / g_bx g) pad)
+                  ((z mod g_bz g * g_by g + y mod g_by g) * g_bx g + x mod g_bx g) 0
+             = get4 a c z y x)).
+  { intros pad. split; [apply block_padded_length|].
+    rewrite block_padded_nth; try assumption; try lia. now rewrite Gz, Gy, Gx. }
   set (bx := g_bx g) in *. set (by_ := g_by g) in *. set (bz := g_bz g) in *.
-  assert (Hxb : x / bx < gx) by (apply div_lt_cdiv; [lia|exact Hx]).
-  assert (Hyb : y / by_ < gy) by (apply div_lt_cdiv; [lia|exact Hy]).
-  assert (Hzb : z / bz < gz) by (apply div_lt_cdiv; [lia|exact Hz]).
-  destruct (Hblk _ _ _ Hzb Hyb Hxb) as (pad & Hbound & lo & vo & bits & B1 & B2 & B3 & B4 & B5 & B6 & B7).
+  set (xb := x / bx) in *. set (yb := y / by_) in *. set (zb := z / bz) in *.
+  set (xm := x mod bx) in *. set (ym := y mod by_) in *. set (zm := z mod bz) in *.
+  clearbody xb yb zb xm ym zm gx gy gz bx by_ bz.
+  destruct (Hpad _ _ _ Hzb Hyb Hxb) as (pad & Epd).
+  destruct (Hblk _ (grid_index_lt gx gy gz xb yb zb Hxb Hyb Hzb))
+    as (_ & Hbound & lo & vo & bits & B1 & B2 & B3 & B4 & B5 & B6 & B7).
+  rewrite Epd in Hbound, B1, B6, B7.
+  destruct (Epad pad) as [Hvlen Hpv0]. clear Epad Hblk Hpad Epd.
   destruct (layout_chan (a_c a) chans c Hlen Hc) as [L1 L2]. cbv zeta in L1, L2.
   rewrite <- EW in L1, L2.
-  set (off := nthN (offsets_from (a_c a) chans) c 0) in *.
-  set (Wc := nthN chans c []) in *.
-  set (vals := block_padded a g c (z / bz) (y / by_) (x / bx) pad) in *.
-  set (k := x / bx + gx * (y / by_ + gy * (z / bz))) in *.
-  assert (Hkb : k < gx * gy * gz).
-  { subst k. assert (y / by_ + gy * (z / bz) + 1 <= gy * gz) by nia. nia. }
-  destruct (voxel_geometry z bz Hbz) as [Gz Gz'].
-  destruct (voxel_geometry y by_ Hby) as [Gy Gy'].
-  destruct (voxel_geometry x bx Hbx) as [Gx Gx'].
-  set (p := x mod bx + bx * (y mod by_ + by_ * (z mod bz))).
-  assert (Hp : p < lenN vals).
-  { unfold vals. rewrite block_padded_length. fold bx by_ bz. subst p.
-    assert (y mod by_ + by_ * (z mod bz) + 1 <= by_ * bz) by nia. nia. }
-  assert (Hpv : nthN vals p 0 = get4 a c z y x).
-  { unfold vals, p.
-    replace (x mod bx + bx * (y mod by_ + by_ * (z mod bz)))
-      with ((z mod bz * by_ + y mod by_) * bx + x mod bx) by lia.
-    unfold bx, by_, bz. rewrite block_padded_nth; fold bx by_ bz; try assumption; try lia.
-    now rewrite Gz, Gy, Gx. }
   assert (HcW : c < lenN W).
   { rewrite EW, lenN_app, offsets_from_length. lia. }
-  (* unfold the specification *)
-  unfold spec_value. fold bx by_ bz.
-  destruct (N.eqb_spec bx 0); [contradiction|].
-  destruct (N.eqb_spec by_ 0); [contradiction|].
-  destruct (N.eqb_spec bz 0); [contradiction|]. cbn [orb].
-  rewrite !ceil_quot_cdiv by assumption.
-  change (cdiv (a_x a) bx) with gx. change (cdiv (a_y a) by_) with gy. fold k. fold p.
+  set (off := nthN (offsets_from (a_c a) chans) c 0) in *.
+  set (Wc := nthN chans c []) in *.
+  set (vals := block_padded a g c zb yb xb pad) in *.
+  clearbody off Wc vals. clear EW.
+  set (k := xb + gx * (yb + gy * zb)) in *.
+  assert (Hkb : k < gx * gy * gz).
+  { subst k. assert (yb + gy * zb + 1 <= gy * gz) by nia. nia. }
+  clearbody k.
+  set (p := xm + bx * (ym + by_ * zm)) in *.
+  assert (Hp : p < lenN vals).
+  { rewrite Hvlen. subst p. assert (ym + by_ * zm + 1 <= by_ * bz) by nia. nia. }
+  assert (Hpv : nthN vals p 0 = get4 a c z y x).
+  { rewrite <- Hpv0. f_equal. subst p. lia. }
+  clearbody p. clear Hpv0 Gx Gy Gz Gx' Gy' Gz' Hxb Hyb Hzb.
   rewrite (rd32_words W c HW HcW), L1.
   replace (4 * off + 8 * k) with (4 * off + 4 * (2 * k)) by lia.
   replace (4 * off + 4 * (2 * k) + 4) with (4 * off + 4 * (2 * k + 1)) by lia.
@@ -205,9 +218,103 @@ Proof.
   replace ((lo + bits * two24) mod two24) with lo
     by (symmetry; rewrite N.mod_add by (rewrite two24_val; lia); apply N.mod_small; exact B4).
   rewrite (bits_allowed_In bits Hallowed). cbn [negb].
-  rewrite (spec_index_enc dt W Wc vals off vo bits HW L2 B1 B7 p Hp).
+  rewrite (spec_index_enc W Wc vals off vo bits HW L2 B1 B7 p Hp).
   rewrite Hpv.
   rewrite (spec_entry_enc dt W Wc vals off lo HW L2 B6 Hbound).
   - reflexivity.
   - rewrite <- Hpv. unfold nthN. apply nth_In. unfold lenN in Hp. lia.
+Qed.
+
+(* ---------- (3) the encoder's output is well-formed ---------- *)
+
+Lemma ceil_quot_bits B b :
+  pos_bits b -> ceil_quot (B * b) 32 = cdiv B (32 / b).
+Proof.
+  intros Hb. rewrite ceil_quot_cdiv by lia.
+  unfold cdiv, nceil_div.
+  destruct Hb as [->|[->|[->|[->|[->| ->]]]]].
+  - change (32 / 1) with 32. f_equal. lia.
+  - change (32 / 2) with 16. lia.
+  - change (32 / 4) with 8. lia.
+  - change (32 / 8) with 4. lia.
+  - change (32 / 16) with 2. lia.
+  - change (32 / 32) with 1. lia.
+Qed.
+
+Lemma forallb_range (f : N -> bool) n : (forall k, k < n -> f k = true) -> forallb f (range n) = true.
+Proof. intros H. apply forallb_forall. intros k Hk. apply H. now apply range_In. Qed.
+
+Lemma wf_block_enc dt W Wc vals off k B :
+  w32 W -> seg W off Wc -> 2 * k + 1 < lenN Wc ->
+  lenN vals = B -> Forall (fun v => v < dt_bound dt) vals -> blk_enc dt Wc k vals ->
+  wf_block dt (bytes_of_words W) (4 * lenN W) (4 * off) B (4 * off + 8 * k) = true.
+Proof.
+  intros HW Hseg Hk HB Hbound (lo & vo & bits & B1 & B2 & B3 & B4 & B5 & B6 & B7).
+  unfold wf_block.
+  replace (4 * off + 8 * k) with (4 * off + 4 * (2 * k)) by lia.
+  replace (4 * off + 4 * (2 * k) + 4) with (4 * off + 4 * (2 * k + 1)) by lia.
+  rewrite !(chan_read W off Wc) by (try assumption; lia).
+  rewrite B2, B3.
+  destruct (nbits_spec _ _ B1) as [Hle Hallowed].
+  change (2 ^ 24) with two24.
+  replace ((lo + bits * two24) / two24) with bits
+    by (symmetry; rewrite N.div_add by (rewrite two24_val; lia); rewrite N.div_small by exact B4; lia).
+  replace ((lo + bits * two24) mod two24) with lo
+    by (symmetry; rewrite N.mod_add by (rewrite two24_val; lia); apply N.mod_small; exact B4).
+  rewrite (bits_allowed_In bits Hallowed). cbn [andb].
+  assert (Hext := seg_extent _ _ _ Hseg).
+  assert (Hlext := seg_extent _ _ _ B6). rewrite lut_words_length in Hlext.
+  assert (Hvext := seg_extent _ _ _ B7).
+  apply andb_true_intro. split.
+  - apply N.leb_le.
+    assert (El : lenN (pack_values bits (map (fun v => index_of v (sort_dedup vals)) vals))
+                 = ceil_quot (B * bits) 32).
+    { destruct (N.eq_dec bits 0) as [->|Hnz].
+      - rewrite pack_values_0, N.mul_0_r. reflexivity.
+      - rewrite pack_values_length, lenN_map, HB by (apply allowed_pos_bits; assumption).
+        symmetry. apply ceil_quot_bits. apply allowed_pos_bits; assumption. }
+    rewrite El in Hvext. lia.
+  - apply forallb_range. intros p Hp.
+    rewrite (spec_index_enc W Wc vals off vo bits HW Hseg B1 B7 p ltac:(lia)).
+    apply N.leb_le.
+    assert (Hin : In (nthN vals p 0) (sort_dedup vals)).
+    { apply sort_dedup_In. unfold nthN. apply nth_In. unfold lenN in HB. lia. }
+    destruct (index_of_spec _ _ Hin) as [Hidx _].
+    destruct dt; cbn [itemsize wpe] in *; nia.
+Qed.
+
+Theorem encode_wellformed dt nc g a buf :
+  wf_arr (dt_bound dt) a -> cseg_encode dt nc g a = Ok buf ->
+  well_formed dt buf (a_c a) (a_z a) (a_y a) (a_x a) (g_bx g) (g_by g) (g_bz g) = true.
+Proof.
+  intros Hwf E.
+  destruct (cseg_encode_file_enc dt nc g a buf Hwf E) as (_ & Hbx & Hby & Hbz & W & chans & -> & Hf).
+  destruct Hf as (EW & Hlen & HW & Hch).
+  unfold well_formed.
+  destruct (N.eqb_spec (g_bx g) 0); [contradiction|].
+  destruct (N.eqb_spec (g_by g) 0); [contradiction|].
+  destruct (N.eqb_spec (g_bz g) 0); [contradiction|]. cbn [orb negb andb].
+  rewrite !ceil_quot_cdiv by assumption.
+  change (cdiv (a_x a) (g_bx g)) with (grid_x a g). change (cdiv (a_y a) (g_by g)) with (grid_y a g).
+  change (cdiv (a_z a) (g_bz g)) with (grid_z a g).
+  rewrite bytes_of_words_lenN.
+  assert (HCW : a_c a <= lenN W).
+  { rewrite EW, lenN_app, offsets_from_length. lia. }
+  replace ((4 * lenN W) mod 4) with 0 by (symmetry; rewrite N.mul_comm; apply N.mod_mul; lia).
+  cbn [N.eqb andb].
+  destruct (N.leb_spec (4 * a_c a) (4 * lenN W)); [|lia]. cbn [andb].
+  apply forallb_range. intros c Hc.
+  rewrite (rd32_words W c HW ltac:(lia)).
+  destruct (layout_chan (a_c a) chans c Hlen Hc) as [L1 L2]. cbv zeta in L1, L2.
+  rewrite <- EW in L1, L2. rewrite L1.
+  destruct (Hch c Hc) as (vl & Hce). unfold chan_enc in Hce. cbv zeta in Hce.
+  destruct Hce as (_ & Hl & Hvl & Hblk & _).
+  set (off := nthN (offsets_from (a_c a) chans) c 0) in *.
+  set (Wc := nthN chans c []) in *.
+  assert (Hext := seg_extent _ _ _ L2).
+  set (nblk := grid_x a g * grid_y a g * grid_z a g) in *.
+  apply andb_true_intro. split; [apply N.leb_le; lia|].
+  apply forallb_range. intros k Hk.
+  destruct (Hblk k Hk) as (Hvlen & Hbound & Hbe).
+  apply (wf_block_enc dt W Wc (nthN vl k []) off k); try assumption; try lia.
 Qed.
